@@ -164,9 +164,16 @@ def e_datum(ctx, n):
                         dd.append("constrained corrections not orthogonal to the datum transformation '%s': %.3e (|dx| = %.3e)" % (name, val, norm))
                         break
             if dd:
-                bad += 1
-                ctx.violation({"kind": "E:datum", "gkf_set1": txts[0], "gkf_set2": txts[1], "run": list(k), "reference_run": list(keys[0]), "differences": dd[:8]},
-                              "datum change altered more than the datum (%s, constraints %s): %s" % (k[1], sets[k[0]], dd[0]))
+                key = None
+                if k[1] == "envelope" and r["defect"] < ref["defect"]:
+                    # the recorded weakness of Envelope::cholDec (no pivoting, absolute tolerance): on THIS input envelope alone reports a
+                    # smaller defect than an algorithm that agrees with the reference run
+                    chk, _ = enet.run_all(ctx, bdir, txts[k[0]], "c08_%d_cls" % t, algs=["gso"])
+                    if enet.adjusted_ok(chk["gso"]) and chk["gso"]["res"]["defect"] == ref["defect"]:
+                        key = "C08:envelope-undercounts-defect"
+                if ctx.violation({"kind": "E:datum", "gkf_set1": txts[0], "gkf_set2": txts[1], "run": list(k), "reference_run": list(keys[0]), "differences": dd[:8]},
+                                 "datum change altered more than the datum (%s, constraints %s): %s" % (k[1], sets[k[0]], dd[0]), key=key) is not False:
+                    bad += 1
                 break
         if bad >= 3:
             break
